@@ -36,6 +36,10 @@ RCmp(op, a, b) == CASE op = "eq"  -> REq(a, b)
                     [] op = "gt"  -> RLt(b, a)
                     [] op = "gte" -> RLe(b, a)
 
+\* can a and b be compared within 31 bits?
+CmpFits(a, b) == LET g == Gcd(a.d, b.d)
+                     Fits(x, y) == x = 0 \/ y = 0 \/ x <= 2000000000 \div y
+                 IN Fits(Abs(a.n), b.d \div g) /\ Fits(Abs(b.n), a.d \div g)
 Val(r) == [k |-> "val", n |-> r.n, d |-> r.d]
 BadV == [k |-> "bad", n |-> 0, d |-> 1]
 UnspecV == [k |-> "unspec", n |-> 0, d |-> 1]
@@ -59,35 +63,71 @@ Dec(s) ==
            good == ip # <<>> /\ fp # <<>> /\ AllDigits(ip) /\ AllDigits(fp)
        IN [ok |-> good, n |-> IF good THEN DigitsVal(ip \o fp) ELSE 0, d |-> IF good THEN Pow10(Len(fp)) ELSE 1]
 
-\* ---- strconv.ParseFloat(s, 64)
+\* unsigned mantissa as ParseFloat / ParseDuration read it: "12", "12.5", ".5", "5." (at least one digit, at most 7): [ok, n, d]
+Mant(s) ==
+  IF s = <<>> \/ Len(s) > 8 \/ DotCount(s) > 1 THEN [ok |-> FALSE, n |-> 0, d |-> 1]
+  ELSE IF DotCount(s) = 0 THEN Dec(s)
+  ELSE LET i == DotIndex(s)
+           ip == SubSeq(s, 1, i - 1)
+           fp == SubSeq(s, i + 1, Len(s))
+           good == (ip # <<>> \/ fp # <<>>) /\ AllDigits(ip) /\ AllDigits(fp)
+       IN [ok |-> good, n |-> IF good THEN DigitsVal(ip \o fp) ELSE 0, d |-> IF good THEN Pow10(Len(fp)) ELSE 1]
+
+\* ---- strconv.ParseFloat(s, 64): [+-]? mantissa ([eE] [+-]? digits)?   (inf, nan, hexadecimal and underscores are not modelled)
 NumStarters == {43, 45, 46, 105, 73, 110, 78} \cup 48..57       \* + - . i I n N digits
+ExpIndex(s) == IF \E i \in DOMAIN s : s[i] \in {101, 69} THEN CHOOSE i \in DOMAIN s : s[i] \in {101, 69} /\ \A j \in 1..(i - 1) : s[j] \notin {101, 69} ELSE 0
+\* m * 10^k for a small exponent, as long as numerator and denominator stay below 10^9
+Scale10(m, k) == IF k >= 0 THEN (IF m.n = 0 THEN [ok |-> TRUE, r |-> [n |-> 0, d |-> 1]]
+                                 ELSE IF k <= 8 /\ m.n < Pow10(9 - k) THEN [ok |-> TRUE, r |-> Norm(m.n * Pow10(k), m.d)] ELSE [ok |-> FALSE, r |-> m])
+                 ELSE IF 0 - k <= 8 /\ m.d < Pow10(9 + k) THEN [ok |-> TRUE, r |-> Norm(m.n, m.d * Pow10(0 - k))] ELSE [ok |-> FALSE, r |-> m]
 ParseNum(s) ==
   IF s = <<>> THEN BadV
   ELSE IF s[1] \notin NumStarters THEN BadV
   ELSE LET neg == s[1] = 45
-           body == IF neg THEN Tail(s) ELSE s
-           r == Dec(body)
-       IN IF r.ok THEN Val(Norm(IF neg THEN 0 - r.n ELSE r.n, r.d)) ELSE UnspecV
+           body == IF s[1] \in {43, 45} THEN Tail(s) ELSE s
+           e == ExpIndex(body)
+           mant == Mant(IF e = 0 THEN body ELSE SubSeq(body, 1, e - 1))
+           ex == IF e = 0 THEN <<>> ELSE SubSeq(body, e + 1, Len(body))
+           eneg == ex # <<>> /\ ex[1] = 45
+           edig == IF ex # <<>> /\ ex[1] \in {43, 45} THEN Tail(ex) ELSE ex
+           eok == e = 0 \/ (edig # <<>> /\ AllDigits(edig) /\ Len(edig) <= 2)
+           k == IF e = 0 \/ ~eok THEN 0 ELSE IF eneg THEN 0 - DigitsVal(edig) ELSE DigitsVal(edig)
+           sc == Scale10([n |-> mant.n, d |-> mant.d], k)
+       IN IF mant.ok /\ eok /\ sc.ok THEN Val(Norm(IF neg THEN 0 - sc.r.n ELSE sc.r.n, sc.r.d)) ELSE UnspecV
 
-\* ---- time.ParseDuration(s): (number unit)+ ; modelled units: ms s m h, value in seconds
-UnitSec(u) == CASE u = <<109, 115>> -> [ok |-> TRUE, n |-> 1, d |-> 1000]
+\* ---- time.ParseDuration(s): [+-]? (number unit)+ ; modelled units: ns us ms s m h; value in seconds.
+\* The result is a whole number of nanoseconds: spellings with a finer fraction are not modelled.
+UnitSec(u) == CASE u = <<110, 115>> -> [ok |-> TRUE, n |-> 1, d |-> 1000000000]
+                [] u = <<117, 115>> -> [ok |-> TRUE, n |-> 1, d |-> 1000000]
+                [] u = <<109, 115>> -> [ok |-> TRUE, n |-> 1, d |-> 1000]
                 [] u = <<115>>      -> [ok |-> TRUE, n |-> 1, d |-> 1]
                 [] u = <<109>>      -> [ok |-> TRUE, n |-> 60, d |-> 1]
                 [] u = <<104>>      -> [ok |-> TRUE, n |-> 3600, d |-> 1]
                 [] OTHER            -> [ok |-> FALSE, n |-> 0, d |-> 1]
+\* a product of small factors that stays below 2^31 (else the spelling is left unmodelled)
+MulFits(a, b) == a = 0 \/ b = 0 \/ (a < 2000000 /\ b < 1000) \/ (a < 1000 /\ b < 2000000) \/ (a < 40000 /\ b < 40000)
 RECURSIVE DurFrom(_, _, _)
 DurFrom(s, i, acc) ==
-  IF i > Len(s) THEN Val(acc)
+  IF i > Len(s) THEN (IF 1000000000 % acc.d = 0 THEN Val(acc) ELSE UnspecV)
   ELSE LET j == NumEnd(s, i)
            k == AlphaEnd(s, j)
-           num == Dec(SubSeq(s, i, j - 1))
+           num == Mant(SubSeq(s, i, j - 1))
            u == UnitSec(SubSeq(s, j, k - 1))
-       IN IF j = i \/ k = j \/ ~num.ok \/ ~u.ok THEN UnspecV
-          ELSE DurFrom(s, k, RAdd(acc, Norm(num.n * u.n, num.d * u.d)))
+           fits == j # i /\ k # j /\ num.ok /\ u.ok /\ MulFits(num.n, u.n) /\ num.d <= 1000 /\ (num.d = 1 \/ u.d <= 1000000)
+           term == IF fits THEN Norm(num.n * u.n, num.d * u.d) ELSE [n |-> 0, d |-> 1]
+           g == Gcd(acc.d, term.d)
+           \* the sum acc + term must be computable within 31 bits
+           Small(a, b) == a = 0 \/ b = 0 \/ a <= 1000000000 \div b
+           addable == Small(Abs(acc.n), term.d \div g) /\ Small(term.n, acc.d \div g) /\ Small(acc.d \div g, term.d)
+       IN IF ~fits \/ ~addable THEN UnspecV
+          ELSE DurFrom(s, k, RAdd(acc, term))
 ParseDur(s) ==
   IF s = <<>> THEN BadV
   ELSE IF s[1] \notin ({43, 45, 46} \cup 48..57) THEN BadV
-  ELSE IF s[1] \in {43, 45} THEN UnspecV
+  ELSE IF s[1] \in {43, 45}
+    THEN (IF Len(s) = 1 THEN BadV
+          ELSE LET r == DurFrom(Tail(s), 1, [n |-> 0, d |-> 1]) IN
+               IF r.k = "val" /\ s[1] = 45 THEN Val([n |-> 0 - r.n, d |-> r.d]) ELSE r)
   ELSE DurFrom(s, 1, [n |-> 0, d |-> 1])
 
 \* ---- humanize.ParseBytes(s): digits then a unit, case-insensitive; modelled units: "" b kb kib mb mib
@@ -106,6 +146,9 @@ ParseBytes(s) ==
            digits == SubSeq(s, 1, j - 1)
            unit == SubSeq(s, j, Len(s))
            m == ByteMult(unit)
-       IN IF AllDigits(digits) /\ Len(digits) <= 3 /\ m > 0 /\ AlphaEnd(s, j) = Len(s) + 1
-            THEN Val([n |-> DigitsVal(digits) * m, d |-> 1]) ELSE UnspecV
+           \* a fraction is modelled when the product is still exact in binary floating point: halves and quarters
+           fr == Mant(digits)
+           exact == fr.ok /\ fr.d \in {1, 2, 4, 10, 100} /\ fr.n < 1000 /\ (fr.d \in {10, 100} => (fr.n * 4) % fr.d = 0)
+       IN IF exact /\ m > 0 /\ AlphaEnd(s, j) = Len(s) + 1
+            THEN Val([n |-> (fr.n * m) \div fr.d, d |-> 1]) ELSE UnspecV
 =============================================================================
